@@ -108,7 +108,8 @@ CHECKS = {
               "Schmerl-Trotter consequence on real enumeration.", _BNOTE,
               "deductive wrapper contracts over ghost family verdicts + bounded run-time contracts vs family oracles"),
     "C17": _c("exploration",
-              "Deductive: maximal_mesh_pattern_of_occurrence = complement of the cells occupied by non-occurrence points.  Bounded: BiSC soundness/completeness/irredundancy on "
+              "Deductive: maximal_mesh_pattern_of_occurrence = complement of the cells occupied by non-occurrence points; BiSC's own containment test "
+              "(perm_contains_cl_patt_many_shadings) agrees with mesh-pattern containment (same notion of cell as the verified mesh occurrence listing).  Bounded: BiSC soundness/completeness/irredundancy on "
               "ALL subsets of S0..S3 and seeded sets up to length 5, own containment vs definition, representations, clean-up, auto_bisc.", _BNOTE,
               "deductive contract for the occupied-cell computation + bounded run-time contracts over all small input sets"),
     "C18": _c("exploration",
